@@ -43,6 +43,22 @@ class Int(V):
         return hash((self.v, self.ty))
 
 
+class Flt(V):
+    __slots__ = ("v",)
+
+    def __init__(self, v):
+        self.v = float(v)
+
+    def __repr__(self):
+        return "%rf64" % self.v
+
+    def __eq__(self, o):
+        return isinstance(o, Flt) and o.v == self.v
+
+    def __hash__(self):
+        return hash(("flt", self.v))
+
+
 class Str(V):
     __slots__ = ("s",)
 
@@ -324,6 +340,11 @@ class Interp:
             return v
         if k == "field":
             i = e[1]
+            fty = e[3] if len(e) > 3 else ""
+            if fty.startswith(("core::ptr::unique::Unique<", "core::ptr::non_null::NonNull<", "*const ", "*mut ")) and not (
+                    isinstance(v, Variant) and v.adt and ("Unique" in v.adt or "NonNull" in v.adt)):
+                # Box<T> is modelled as T: the raw-pointer plumbing of an elaborated box deref is transparent
+                return v
             if isinstance(v, (Variant, Tup)):
                 if i < len(v.fields):
                     return v.fields[i]
@@ -401,6 +422,15 @@ class Interp:
             return Opaque("promoted%d" % k["promoted"], k["ty"])
         if k.get("txt") == "()":
             return UNIT
+        if k.get("ty") in ("f64", "f32") and k.get("txt"):
+            m = re.match(r"^(-?[0-9.eE+\-]+|inf|-inf|NaN)_?f(64|32)$", k["txt"])
+            if m:
+                try:
+                    return Flt(float(m.group(1)))
+                except ValueError:
+                    pass
+        if "static" in k:
+            return Opaque("static:" + k["static"], k["ty"])
         if "named" in k:
             return Opaque("const:" + k["named"], k["ty"])
         # zero-sized closure / unit struct constants
@@ -467,8 +497,15 @@ class Interp:
             if isinstance(v, Int):
                 to = rv["to"]
                 if to in ("f64", "f32"):
-                    return Opaque("float")
+                    return Flt(float(v.v))
                 return Int(v.v, "bool" if to == "bool" else ("char" if to == "char" else to))
+            if isinstance(v, Flt):
+                to = rv["to"]
+                if to in ("f64", "f32"):
+                    return v
+                return Opaque("float-to-int", to)
+            if rv["cast"].startswith(("Transmute", "PtrToPtr")) and isinstance(v, (Variant, Tup)):
+                return v
             return v if isinstance(v, (Ptr, Closure, FnItem, Str)) else Opaque("cast(%s)" % getattr(v, "tag", "?"), rv["to"])
         if "bin" in rv:
             a = self.operand(p, fid, fn, rv["l"])
@@ -519,8 +556,14 @@ class Interp:
             if op in ("AddWithOverflow", "SubWithOverflow", "MulWithOverflow"):
                 f = {"AddWithOverflow": x + y, "SubWithOverflow": x - y, "MulWithOverflow": x * y}[op]
                 return Tup([Int(f, a.ty), FALSE])
+        if isinstance(a, Flt) and isinstance(b, Flt):
+            x, y = a.v, b.v
+            if op in ("Eq", "Ne", "Lt", "Le", "Gt", "Ge"):
+                return mkbool({"Eq": x == y, "Ne": x != y, "Lt": x < y, "Le": x <= y, "Gt": x > y, "Ge": x >= y}[op])
         if op in ("AddWithOverflow", "SubWithOverflow", "MulWithOverflow"):
             return Tup([Opaque("arith"), Opaque("ovf:%s" % op, "bool")])
+        if op in ("Div", "Rem") and isinstance(b, Int) and b.v != 0 and isinstance(a, Int):
+            return Opaque("quot")
         if op == "Eq" and isinstance(a, Ptr) and isinstance(b, Ptr):
             return mkbool(a == b)
         if op in ("Eq", "Ne", "Lt", "Le", "Gt", "Ge"):
@@ -542,7 +585,7 @@ class Interp:
         if init_locals:
             fr.update(init_locals)
         p.frames[fid] = fr
-        p.stack.append([fid, fn, start_bb, None, None])
+        p.stack.append([fid, fn, start_bb, None, None, None])
         work = [p]
         while work:
             if len(self.outcomes) + len(work) > self.max_paths:
@@ -562,7 +605,8 @@ class Interp:
             if p.steps > self.max_steps:
                 self.finish(p, "cutoff", "step bound")
                 return
-            fid, fn, bb, retp, rett = p.stack[-1]
+            fid, fn, bb, retp, rett = p.stack[-1][:5]
+            retwrap = p.stack[-1][5] if len(p.stack[-1]) > 5 else None
             depth = len(p.stack)
             key = (depth, fn.path, bb)
             p.visits[key] = p.visits.get(key, 0) + 1
@@ -594,6 +638,8 @@ class Interp:
                     self.finish(p, "return", rv)
                     return
                 cfid = p.stack[-1][0]
+                if retwrap is not None:
+                    rv = retwrap(rv)
                 if retp is not None:
                     self.write_place(p, retp[0], retp[1], rv)
                 p.stack[-1][2] = rett
@@ -604,6 +650,9 @@ class Interp:
             elif k == "resume":
                 self.finish(p, "panic", "unwind", t.get("sp"))
                 return
+            elif k == "assert" and t["msg"] in ("MisalignedPointerDereference", "NullPointerDereference", "InvalidEnumConstruction"):
+                # compiler-inserted pointer validity checks: not program logic
+                p.stack[-1][2] = t["target"]
             elif k == "assert":
                 c = self.operand(p, fid, fn, t["cond"])
                 if isinstance(c, Int):
@@ -748,6 +797,73 @@ class Interp:
                 callee = cv.path
                 names = mir.name_forms(callee)
                 args = inner
+        # Option/Result combinators applied to a known variant and a known closure / fn item
+        comb = None
+        for n in names:
+            if n in COMBINATORS:
+                comb = COMBINATORS[n]
+                break
+        if comb is not None and len(args) >= 2 and isinstance(args[0], Variant) and tgt is not None:
+            a0 = args[0]
+            fv = args[1]
+            applies, wrap, passthrough = comb(a0)
+            if not applies:
+                self.write_place(p, fid, dst, passthrough)
+                p.stack[-1][2] = tgt
+                return True
+            g = None
+            cargs = None
+            if isinstance(fv, Closure):
+                g = self.lookup_fn(fv.defn)
+                cargs = [fv, a0.fields[0]]
+            elif isinstance(fv, FnItem):
+                g = self.lookup_fn(fv.path)
+                cargs = [a0.fields[0]]
+                if g is None:
+                    # tuple-struct / variant constructor used as a function
+                    self.write_place(p, fid, dst, wrap(Opaque("ctor:" + fv.path.split("::")[-1])))
+                    p.stack[-1][2] = tgt
+                    return True
+            if g is not None and len(p.stack) <= self.max_depth:
+                return self._enter(p, g, cargs, fid, dst, tgt, wrap=wrap)
+        # `a == b`: look through references and std wrappers (Option, Box, Cow), then enter the local PartialEq impl
+        if ("core::cmp::PartialEq::eq" in names or "core::cmp::PartialEq::ne" in names) and len(args) == 2 and not f.get("res_local") and tgt is not None:
+            negate = "core::cmp::PartialEq::ne" in names and "core::cmp::PartialEq::eq" not in names
+
+            def full(v):
+                k = 0
+                while isinstance(v, Ptr) and k < 8:
+                    v = self.deref(p, v)
+                    k += 1
+                return v
+            a0, b0 = full(args[0]), full(args[1])
+            verdict = None
+            for _ in range(6):
+                if isinstance(a0, Variant) and isinstance(b0, Variant) and a0.adt == b0.adt and a0.adt in KNOWN_ENUMS:
+                    if a0.vi != b0.vi:
+                        verdict = False
+                        break
+                    if not a0.fields:
+                        verdict = True
+                        break
+                    a0, b0 = full(a0.fields[0]), full(b0.fields[0])
+                    continue
+                break
+            if verdict is None and isinstance(a0, Variant) and isinstance(b0, Variant) and a0.adt and a0.adt == b0.adt and not negate:
+                g = self.lookup_fn("<%s as core::cmp::PartialEq>::eq" % a0.adt)
+                if g is not None and len(p.stack) <= self.max_depth:
+                    return self._enter(p, g, [a0, b0], fid, dst, tgt)
+            if verdict is None:
+                if isinstance(a0, Int) and isinstance(b0, Int):
+                    verdict = a0.v == b0.v
+                elif isinstance(a0, Str) and isinstance(b0, Str):
+                    verdict = a0.s == b0.s
+                elif isinstance(a0, Flt) and isinstance(b0, Flt):
+                    verdict = a0.v == b0.v
+            if verdict is not None:
+                self.write_place(p, fid, dst, mkbool(verdict != negate))
+                p.stack[-1][2] = tgt
+                return True
         # models
         model = None
         for n in names:
@@ -781,7 +897,8 @@ class Interp:
         p.stack[-1][2] = tgt
         return True
 
-    def _enter(self, p, g, args, fid, dst, tgt):
+    def _enter(self, p, g, args, fid, dst, tgt, wrap=None):
+        p.events.append(("enter", g.path))
         nf = p.next_fid
         p.next_fid += 1
         fr = {}
@@ -789,7 +906,7 @@ class Interp:
         for i, a in enumerate(args):
             fr[i + 1] = a
         p.frames[nf] = fr
-        p.stack.append([nf, g, 0, (fid, dst), tgt])
+        p.stack.append([nf, g, 0, (fid, dst), tgt, wrap])
         return True
 
     def _deliver(self, p, fid, fn, t, res, work):
@@ -909,7 +1026,105 @@ def _str_ne(it, p, fid, fn, t, args):
     return mkbool(not r.v)
 
 
+def _discr_value(it, p, fid, fn, t, args):
+    a = args[0]
+    n = 0
+    while isinstance(a, Ptr) and n < 6:
+        a = it.deref(p, a)
+        n += 1
+    if isinstance(a, Variant):
+        return Int(a.vi, "isize")
+    return NotImplemented
+
+
+def _comb_option_map(a):
+    if a.adt == "core::option::Option":
+        if a.name == "Some":
+            return True, (lambda v: some(v)), None
+        return False, None, a
+    return False, None, a
+
+
+def _comb_option_and_then(a):
+    if a.adt == "core::option::Option":
+        if a.name == "Some":
+            return True, (lambda v: v), None
+        return False, None, a
+    return False, None, a
+
+
+def _comb_is_some_and(a):
+    if a.adt == "core::option::Option":
+        if a.name == "Some":
+            return True, (lambda v: v), None
+        return False, None, FALSE
+    return False, None, a
+
+
+def _comb_result_map(a):
+    if a.adt == "core::result::Result":
+        if a.name == "Ok":
+            return True, (lambda v: ok(v)), None
+        return False, None, a
+    return False, None, a
+
+
+def _comb_result_map_err(a):
+    if a.adt == "core::result::Result":
+        if a.name == "Err":
+            return True, (lambda v: err(v)), None
+        return False, None, a
+    return False, None, a
+
+
+COMBINATORS = {
+    "core::option::Option::map": _comb_option_map,
+    "core::option::Option::and_then": _comb_option_and_then,
+    "core::option::Option::is_some_and": _comb_is_some_and,
+    "core::result::Result::map": _comb_result_map,
+    "core::result::Result::map_err": _comb_result_map_err,
+}
+
+
+def _opt_as_ref(it, p, fid, fn, t, args):
+    a = args[0]
+    n = 0
+    while isinstance(a, Ptr) and n < 6:
+        a = it.deref(p, a)
+        n += 1
+    if isinstance(a, Variant):
+        return a
+    return NotImplemented
+
+
+def _anyhow_context(it, p, fid, fn, t, args):
+    a = args[0]
+    if isinstance(a, Variant) and a.adt == "core::option::Option":
+        return ok(a.fields[0]) if a.name == "Some" else err(Opaque("context_err"))
+    if isinstance(a, Variant) and a.adt == "core::result::Result":
+        return a if a.name == "Ok" else err(Opaque("context_err"))
+    return NotImplemented
+
+
+def _opt_unwrap(it, p, fid, fn, t, args):
+    a = args[0]
+    if isinstance(a, Variant) and a.adt in ("core::option::Option", "core::result::Result"):
+        if a.name in ("Some", "Ok"):
+            return a.fields[0]
+        return ("panic", "unwrap on %s" % a.name)
+    return NotImplemented
+
+
 DEFAULT_MODELS = {
+    "anyhow::Context::context": _anyhow_context,
+    "anyhow::Context::with_context": _anyhow_context,
+    "core::option::Option::unwrap": _opt_unwrap,
+    "core::option::Option::expect": _opt_unwrap,
+    "core::result::Result::unwrap": _opt_unwrap,
+    "core::result::Result::expect": _opt_unwrap,
+    "core::option::Option::as_ref": _opt_as_ref,
+    "core::option::Option::as_deref": _opt_as_ref,
+    "core::intrinsics::discriminant_value": _discr_value,
     "core::ops::try_trait::Try::branch": _try_branch,
     "core::ops::try_trait::FromResidual::from_residual": _from_residual,
     "anyhow::__private::format_err": _format_err,
